@@ -806,3 +806,16 @@ func BuildRepoBinary(name string) string {
 	}
 	return out
 }
+
+// BuildRepoBinaryRace builds <repo>/src/<name> with the race detector; "" if that build is not possible here.
+func BuildRepoBinaryRace(name string) string {
+	out := RepoBinary(name) + ".race"
+	os.MkdirAll(filepath.Dir(out), 0o755)
+	cmd := exec.Command("go", "build", "-race", "-o", out, ".")
+	cmd.Dir = filepath.Join(repoDir(), "src", name)
+	cmd.Env = append(os.Environ(), "GOFLAGS=-mod=mod", "GOPROXY=off", "GOSUMDB=off", "GOTOOLCHAIN=local", "GOWORK=off", "CGO_ENABLED=1")
+	if _, err := cmd.CombinedOutput(); err != nil {
+		return ""
+	}
+	return out
+}
